@@ -131,8 +131,16 @@ def case(kind, sched_kind, nb, B, E, folder):
                     tick()
                 return ScriptedSampler.sample_batch(self, *a, **kw)
 
+        class NeedsHistory(FS):
+            """Like the best-batch sampler: refuses an empty history. In a correct run it is never asked first."""
+
+            def sample_batch(self, batch_size, search_space, existing_points, existing_losses):
+                if len(existing_points) == 0:
+                    raise ValueError("this sampler needs at least one evaluated point (asked out of turn on an empty history)")
+                return FS.sample_batch(self, batch_size, search_space, existing_points, existing_losses)
+
         s1 = type("SampA", (FS,), {})(B, ctx, tag="A")
-        s2 = type("SampB", (FS,), {})(B, ctx, tag="B")
+        s2 = type("SampB", (NeedsHistory,), {})(B, ctx, tag="B")
         if sched_kind == "rr":
             kw = dict(samplers=[s1, s2])
         else:
@@ -247,7 +255,12 @@ class _RSampler(BaseSampler):
 
 
 class _RSamplerB(_RSampler):
-    pass
+    """second in line: refuses an empty history (as the best-batch sampler does)"""
+
+    def sample_batch(self, batch_size, search_space, existing_points, existing_losses):
+        if len(existing_points) == 0:
+            raise ValueError("this sampler needs at least one evaluated point (asked out of turn on an empty history)")
+        return _RSampler.sample_batch(self, batch_size, search_space, existing_points, existing_losses)
 
 
 
